@@ -40,11 +40,12 @@ func span(id string) *types.Span {
 func init() {
 	// the decision cache of one collector worker: used by the worker goroutine, by router goroutines
 	// (ProcessSpanImmediately under stress relief), by its own monitor and drainer goroutines, and by Stop.
-	vsched.SpawnPolicy["cuckooSentCache.go"] = "daemon"
-	vsched.SpawnPolicy["cuckoo.go"] = "daemon"
 	groups = append(groups, group{
 		Name: "decision-cache",
 		Setup: func() any {
+			// the cache's own goroutines run as scheduled service threads (their fake-clock tickers never fire)
+			vsched.SpawnPolicy["cuckooSentCache.go"] = "thread"
+			vsched.SpawnPolicy["cuckoo.go"] = "thread"
 			vtime.Clock = clockwork.NewFakeClockAt(time.Unix(1700000000, 0))
 			cfg := config.SampleCacheConfig{KeptSize: 4, DroppedSize: 100, SizeCheckInterval: config.Duration(10 * time.Second), WorkerCount: 1}
 			c, err := cache.NewCuckooSentCache(cfg, &metrics.NullMetrics{})
